@@ -729,6 +729,70 @@ def k_cos(x, C):
     x2 = x * x
     return x2 * (x2 * horner_full(x2, C) + (-0.5)) + 1.0
 
+def _is_op(t, op):
+    return tag(t) == "call" and (t[1].startswith("op:%s:" % op) or t[1].startswith("opc:%s" % op)) and len(t) == 4
+
+def parse_chain(t, x):
+    """[c0, c1, ...] when t is the Horner chain c0 + x*(c1 + x*(...)) over constants (either operand order), else None"""
+    from . import errbound as EB
+    if EB.const_value(t) is not None:
+        return [t]
+    if _is_op(t, "add"):
+        for c, m in ((t[2], t[3]), (t[3], t[2])):
+            if EB.const_value(c) is not None and _is_op(m, "mul"):
+                for xx, rest in ((m[2], m[3]), (m[3], m[2])):
+                    if xx is x:
+                        sub = parse_chain(rest, x)
+                        if sub is not None:
+                            return [c] + sub
+    return None
+
+def kernel_from_term(v, kind):
+    """coefficient constants of the minimax part H of an evaluated kernel, read from the term itself (so that the way the
+    coefficients are stored does not matter): odd kernels r*(1 + r2*H(r2)), the cosine kernel 1 + r2*(-1/2 + r2*H(r2))"""
+    from . import errbound as EB
+    def const_is(t, val):
+        c = EB.const_value(t)
+        return c is not None and c == val
+    if kind == "odd" and _is_op(v, "mul"):
+        for r, inner in ((v[2], v[3]), (v[3], v[2])):
+            if _is_op(inner, "add"):
+                for one, m in ((inner[2], inner[3]), (inner[3], inner[2])):
+                    if const_is(one, 1) and _is_op(m, "mul"):
+                        for x2, H_ in ((m[2], m[3]), (m[3], m[2])):
+                            if _is_op(x2, "mul") and x2[2] is r and x2[3] is r:
+                                ch = parse_chain(H_, x2)
+                                if ch:
+                                    return ch
+    if kind == "cos" and _is_op(v, "add"):
+        for one, m in ((v[2], v[3]), (v[3], v[2])):
+            if const_is(one, 1) and _is_op(m, "mul"):
+                for x2, inner in ((m[2], m[3]), (m[3], m[2])):
+                    if _is_op(x2, "mul") and x2[2] is x2[3]:
+                        ch = parse_chain(inner, x2)
+                        if ch and len(ch) >= 2 and const_is(ch[0], _Fr(-1, 2)):
+                            return ch[1:]
+    return None
+
+def synth_table(consts):
+    """a [TwoFloat; n] table node holding the given constants (f64 constants get a zero low word)"""
+    import struct
+    hx = ""
+    for c in consts:
+        if tag(c) == "const":
+            words = (c[2], 0)
+        else:
+            words = (c[2][0][2], c[2][1][2])
+        hx += "".join(struct.pack("<Q", w).hex() for w in words)
+    return mk("carray", "[TwoFloat; %d]" % len(consts), hx)
+
+def first_kernel_leaf(t):
+    """the value of the first ordinary leaf (the branch that needs no argument reduction)"""
+    for path, leaf in vg.leaves(t):
+        if leaf[0] == "leaf" and tag(leaf[1]) == "call":
+            return leaf[1]
+    return None
+
 def quadrant_ref(x, leaf_of):
     """the reduction of `quadrant` with continuation leaf_of(reduced argument, quadrant index or None)"""
     p2 = oracle.dd_named("FRAC_PI_2"); p4 = oracle.dd_named("FRAC_PI_4")
@@ -763,6 +827,19 @@ def check_C16(ctx, rep):
     for carr, lo, hi in fx.iterated:
         if carr not in tabs:
             tabs.append(carr)
+    role_from_terms = None
+    if len(tabs) != 2 or any(not tb[1].startswith("[TwoFloat;") for tb in tabs):
+        # the coefficients are not kept as two TwoFloat tables: read them from the evaluated kernels themselves
+        try:
+            t_cos0, _ = fx.tree("TwoFloat::cos")
+        except vg.Unsupported:
+            t_cos0 = None
+        ks_ = kernel_from_term(first_kernel_leaf(t_sin), "odd")
+        kc_ = kernel_from_term(first_kernel_leaf(t_cos0), "cos") if t_cos0 is not None else None
+        if ks_ and kc_:
+            role_from_terms = {"sin": synth_table(ks_), "cos": synth_table(kc_)}
+            tabs = [role_from_terms["sin"], role_from_terms["cos"]]
+            fx.tree("TwoFloat::sin")
     if len(tabs) != 2:
         rep.fail("R41", "sin kernels", "anchor-lost:sin-kernels", "expected two minimax tables reachable from sin, found %d (reason=anchor-lost)" % len(tabs)); return
     def classify_kernel(tab):
@@ -808,6 +885,10 @@ def check_C16(ctx, rep):
         for carr, lo, hi in fx.iterated:
             if carr not in ttabs:
                 ttabs.append(carr)
+        if len(ttabs) != 1 or not ttabs[0][1].startswith("[TwoFloat;"):
+            kt_ = kernel_from_term(first_kernel_leaf(t_tan), "odd")
+            if kt_:
+                ttabs = [synth_table(kt_)]
         if len(ttabs) != 1:
             rep.fail("R41", "tan kernel", "anchor-lost:tan-kernel", "expected one minimax table reachable from tan, found %d" % len(ttabs))
         else:
@@ -1086,6 +1167,15 @@ def check_C17(ctx, rep):
     atan_tab = None
     if t is not None:
         tabs = horner_tables_in(fx)
+        if len(tabs) != 1 or not tabs[0][1].startswith("[TwoFloat;"):
+            ka_ = None
+            for _, lf in vg.leaves(t):
+                if lf[0] == "leaf":
+                    ka_ = kernel_from_term(lf[1], "odd")
+                    if ka_:
+                        break
+            if ka_:
+                tabs = [synth_table(ka_)]
         if len(tabs) != 1:
             rep.fail("R44", "atan kernel", "anchor-lost:atan-kernel", "expected one minimax table reachable from atan, found %d" % len(tabs))
         else:
@@ -1123,6 +1213,15 @@ def check_C17(ctx, rep):
         rep.fail("R45", "TwoFloat::asin", "unsupported:asin", "cannot evaluate asin: %s" % u); t = None
     if t is not None:
         tabs = horner_tables_in(fx)
+        if len(tabs) != 1 or not tabs[0][1].startswith("[TwoFloat;"):
+            ka_ = None
+            for _, lf in vg.leaves(t):
+                if lf[0] == "leaf":
+                    ka_ = kernel_from_term(lf[1], "odd")
+                    if ka_:
+                        break
+            if ka_:
+                tabs = [synth_table(ka_)]
         if len(tabs) != 1:
             rep.fail("R45", "asin kernel", "anchor-lost:asin-kernel", "expected one minimax table reachable from asin, found %d" % len(tabs))
         else:
